@@ -313,6 +313,28 @@ func c14Plans(c *core.Ctx) []c14Plan {
 	for _, k := range []int{1, 2, 6, 9, 11, 13, 15} {
 		add(c14Plan{Plan: "o:30,e:20", Kill: k, Via: "RunCommand"})
 	}
+	// random plans: sequences of chunks of sizes around the pipe-buffer boundaries on both streams
+	chunkSizes := []int{1, 7, 100, 4095, 4096, 4097, 65535, 65536, 65537, 131072, 200000}
+	for k := 0; k < c.Pick(80, 3000); k++ {
+		var steps []string
+		total := 0
+		for j, n := 0, 1+r.Intn(8); j < n && total < 3<<20; j++ {
+			sz := chunkSizes[r.Intn(len(chunkSizes))]
+			total += sz
+			steps = append(steps, fmt.Sprintf("%s:%d", []string{"o", "e"}[r.Intn(2)], sz))
+			if r.Intn(12) == 0 {
+				steps = append(steps, []string{"co", "ce"}[r.Intn(2)])
+			}
+			if r.Intn(10) == 0 {
+				steps = append(steps, "s:5") // a short pause between writes
+			}
+		}
+		p := c14Plan{Plan: strings.Join(steps, ","), Exit: exits[r.Intn(len(exits))], Via: "RunCommand", Binary: r.Intn(3) == 0}
+		if r.Intn(8) == 0 {
+			p.Kill, p.Exit = kills[r.Intn(len(kills))], 0
+		}
+		add(p)
+	}
 	// the same through InTotoRun and the CLI, and with a command given relative to the run directory
 	base := len(plans)
 	for i := 0; i < base; i++ {
@@ -564,7 +586,7 @@ func init() {
 	core.Register(&core.Property{
 		ID:    "C14",
 		Level: "exploration",
-		Rule: "commands `vhelper emit` with planned output: stdout x stderr sizes from {0, 1, 4095, 4096, 65535, 65536, 65537, 200000, 1 MiB (, 4 MiB thorough)} in both orders, alternating chunks of 1 / 4096 / 65537 bytes, one stream closed before the other is written, text (with CR, LF, TAB) and binary content, InTotoRun with line normalisation on and off, exit statuses 0..255 (16 values), death by signals 1,2,6,9,11,13,15, run directory empty or a temp dir, program given relative to the run directory; through RunCommand, InTotoRun (by-products) and the CLI `run` (by-products in the link file); unstartable and empty commands. Oracle: streams regenerated from the seed and compared byte for byte, exact exit status; hang = causal witness (a thread of the child blocked in write(2) on fd 1/2, CPU time unchanged over 3 samples, call not returned; pid from the cmd_started hook), otherwise inconclusive. " +
+		Rule: "commands `vhelper emit` with planned output: stdout x stderr sizes from {0, 1, 4095, 4096, 65535, 65536, 65537, 200000, 1 MiB (, 4 MiB thorough)} in both orders, alternating chunks of 1 / 4096 / 65537 bytes, one stream closed before the other is written, random sequences of 1-8 chunks with sizes around 4 KiB / 64 KiB / 128 KiB on either stream with optional pauses and early closes (80 quick / 3000 thorough), text (with CR, LF, TAB) and binary content, InTotoRun with line normalisation on and off, exit statuses 0..255 (16 values), death by signals 1,2,6,9,11,13,15, run directory empty or a temp dir, program given relative to the run directory; through RunCommand, InTotoRun (by-products) and the CLI `run` (by-products in the link file); unstartable and empty commands. Oracle: streams regenerated from the seed and compared byte for byte, exact exit status; hang = causal witness (a thread of the child blocked in write(2) on fd 1/2, CPU time unchanged over 3 samples, call not returned; pid from the cmd_started hook), otherwise inconclusive. " +
 			"non-trivial = a stream exceeds one pipe buffer (64 KiB) or a non-zero status; distinct = (via, size classes, order, exit, signal, run dir)",
 		Assumptions: []string{"Linux x86-64 /proc/<pid>/task/*/syscall is readable (we run as root)", "for death by signal only 'not reported as success' is required"},
 		Workers:     func(string) int { return 16 },
